@@ -12,13 +12,13 @@ CLAIMED = {
          "Trusted: determinism of the case generator; DFT-domain buffers are never compared directly. Known finding F24 (cross-family rounding of cross-radix big normalisation) is listed, not suppressed elsewhere.",
          "DESIGN.md §C10"),
  "C11": ("exploration", "runtime metamorphic monitor: double run from two garbage fills + whole-buffer diff; ASan with every unselected byte poisoned",
-         "Each operation of two catalogues (84 HAL operations; 98 poulpy-core / poulpy-ckks operations with keys and operands generated per case) is executed twice on identical inputs but different previous contents of the result buffer (all columns, spare capacity) and scratch; any difference in the "
+         "Each operation of two catalogues (84 HAL operations; 104 poulpy-core / poulpy-ckks / bin-fhe (cmux, cswap) operations with keys and operands generated per case) is executed twice on identical inputs but different previous contents of the result buffer (all columns, spare capacity) and scratch; any difference in the "
          "selected output, any change outside it (other columns, limbs beyond size, read-only operands, canary guards) or any access to a poisoned byte is a violation. Oracle-free, so it "
          "also sees stale limbs that every backend leaves equally stale. Held on the executions observed.",
          "Trusted: the catalogues' notion of 'selected output' (HAL: column res_col, limbs 0..size; core: the whole destination object). Not in the core catalogue: compressed key-material encryption, bin-fhe beyond CMux (covered by C13-C15/C20), CKKS plaintext/assign forms (C16).",
          "DESIGN.md §C11"),
  "C12": ("exploration", "runtime monitor: exact-size scratch windows with red zone + two fills; valgrind memcheck and Miri with uninitialised windows",
-         "Every scratch-taking operation of the two catalogues (30 HAL, 86 poulpy-core / poulpy-ckks; plus the exact-window calls made by the functional monitors C01-C05, whose scratch-class observations are routed here) is called with a window of exactly the bytes its *_tmp_bytes query returns, placed flush against the end of its allocation: a panic for lack of "
+         "Every scratch-taking operation of the two catalogues (30 HAL, 92 poulpy-core / poulpy-ckks / bin-fhe; plus the exact-window calls made by the functional monitors C01-C05, whose scratch-class observations are routed here) is called with a window of exactly the bytes its *_tmp_bytes query returns, placed flush against the end of its allocation: a panic for lack of "
          "space, a guard/red-zone hit (ASan), a result that depends on the fill, or a use of uninitialised scratch reaching the output (memcheck on four backends, Miri on the reference ones) "
          "is a violation. Held on the executions observed.",
          "Trusted: ASan/memcheck/Miri. bin-fhe (operation, query) pairs are exercised with exact windows inside C14/C15/C20. Known findings F23/F23t (swapped arguments in one delegate) are reported as KNOWN-FINDING.",
@@ -65,7 +65,7 @@ CLAIMED = {
          "Trusted: the hook call sites (add-only, no-op without callback); TSan does not see the assembly kernels; Module's unsafe Sync impl is exercised, not proved.",
          "DESIGN.md §C20"),
  "C17": ("exploration", "sanitizers: AddressSanitizer (poisoned neighbours), valgrind memcheck, Miri, canary guards over the HAL and core catalogues with aligned and unaligned scratch windows; scratch-carving and deserialise-then-touch histories",
-         "The HAL catalogue (84 operations, N from 1, odd limb counts, 1..3 columns, size < capacity) and the core catalogue (98 poulpy-core / poulpy-ckks operations) run with exact scratch windows carved from guarded "
+         "The HAL catalogue (84 operations, N from 1, odd limb counts, 1..3 columns, size < capacity) and the core catalogue (104 poulpy-core / poulpy-ckks / bin-fhe (cmux, cswap) operations) run with exact scratch windows carved from guarded "
          "allocations (one window in four starts at an arbitrary, not 64-byte aligned address) under ASan on all four backends, under memcheck on all four (covers the global_asm FFT16 kernels) and under Miri on the "
          "reference backends; random sequences of public take_* calls on windows with arbitrary start addresses are checked view by view (inside the window, disjoint, aligned for the element type); every receiver "
          "accepted by read_from (valid and header-corrupted streams) is touched limb by limb under ASan; any report, canary change or bounds panic is a violation. "
